@@ -187,6 +187,26 @@ Example C16_domain_nonvacuous :
   Pep508Spec.eval target_env spec [[116;101;115;116]; [100;101;118]] m = Some true.
 Proof. exact domain_nonvacuous. Qed.
 
+(* the domain asks that at most one of the names the marker compares extra with is requested
+   (F-C16-7 narrowed: Go and pip differ only when two different names of the marker are both
+   requested): extra == "a-b" or extra == "x" with x and dev requested is inside, and so is the
+   conjunction, which is false on both sides *)
+Example C16_domain_two_names :
+  let valid := fun _ : bytes => false in
+  let sat := fun (o : N) (rhs lhs : bytes) => Err 0%N in
+  let spec := fun (o : N) (rhs lhs : bytes) => @None bool in
+  let a := atom1 (AVarLit VExtra CEq (dq [97;45;98])) in
+  let x := atom1 (AVarLit VExtra CEq (dq [120])) in
+  let E := [[120]; [100;101;118]] in
+  in_domain target_env valid spec E (TOr a [false] x) = true /\
+  marker_result valid sat (print_marker (TOr a [false] x) []) E = Ok true /\
+  Pep508Spec.eval target_env spec E (TOr a [false] x) = Some true /\
+  in_domain target_env valid spec E (TAnd a [false] x) = true /\
+  marker_result valid sat (print_marker (TAnd a [false] x) []) E = Ok false /\
+  Pep508Spec.eval target_env spec E (TAnd a [false] x) = Some false /\
+  in_domain target_env valid spec [[97;45;98]; [120]] (TAnd a [false] x) = false.
+Proof. vm_compute. repeat split; reflexivity. Qed.
+
 (* outside the domain the full statement is false: one witness per class (known findings
    F-C16-1 .. F-C16-7, each replayed on the Go code by the check) *)
 Theorem C16_marker_refuted : ~ C16_marker_full.
